@@ -14,6 +14,12 @@ Every object whose support has finite bounds is additionally evaluated at points
 corners of the box), judged by the object's own logd (finite there: one-sided derivative; -inf there: not finite).
 Oracle: gradient() raises, or returns an array with as many entries as the evaluated variable that equals the
 Richardson-extrapolated central difference of the *same object's* logd; outside the support: not finite.
+Facet "user-supplied pieces return fresh arrays / stored arrays / views of their argument": every callable the harness
+hands to the library (gradient_func of UserDefinedDistribution / UserDefinedLikelihood, forward / adjoint / Jacobian /
+direction-Jacobian product of a forward model, PDE derivative methods, map / imap / gradient of a domain geometry) exists in
+these variants for the composite objects; the user's stored arrays and the evaluation point handed over must be unchanged
+afterwards (`input-altered`).  Repetition facet: on every live object the gradient is evaluated again three times in a row
+at one point, at another point and at the first again, each result judged by the same oracle.
 Failing variants of a cell are coalesced into narrow signatures (only the facets that discriminate failing
 from clean variants are kept).
 """
@@ -50,6 +56,24 @@ RULE = ("cells = family x size x FD option (full product inside the bound); ever
         "gradient raises, or entry i equals the Richardson derivative of logd along axis i taken from a side on which logd is "
         "finite (one-sided three-point differences at the bound, central elsewhere, either one-sided value at a kink) or is the "
         "signed infinity of the one-sided derivative taken across the bound; "
+        "facet 'aliasing of the user-supplied pieces': every callable the harness hands to the library - gradient_func of "
+        "UserDefinedDistribution / UserDefinedLikelihood, forward / adjoint / jacobian / gradient (direction-Jacobian product) of a "
+        "forward model, jacobian_wrt_parameter / gradient_wrt_parameter of a PDE, map / imap / gradient of a domain geometry - exists "
+        "in the variants 'fresh' (a new array per call), 'stored' (a cache on the user's side: the SAME array object is returned "
+        "whenever the same arguments recur; ONE stored array on every call for a constant function such as the gradient c of the "
+        "linear log-likelihood c.x) and, where the piece can be written so, 'view' (a view of - or simply - its argument: the gradient "
+        "x of |x|^2/2, the adjoint / direction-Jacobian product of a flip-and-pad operator, map / imap / gradient of a flip geometry); "
+        "all pieces of one object switch together; enumerated for Likelihood (8 model kinds x default geometry, 3 model kinds x 3 "
+        "user-gradient geometries, flip model on flip geometry), Posterior (priors x {user-defined likelihood smooth / linear / "
+        "quadratic, 5 model kinds, 2 user-gradient geometries}; a UserDefinedDistribution prior carries its own gradient_func), "
+        "MultipleLikelihoodPosterior (3 priors x 7 member lists with the user-defined member first / last / twice x {direct, joint}), "
+        "stacked joint (3 member lists) and for the plain UserDefinedDistribution, FD option off/on; oracle unchanged, plus: after all "
+        "evaluations every array stored on the user's side equals its pristine copy, and every array / list handed over as evaluation "
+        "point (all cells, all representations) is unchanged after the call - otherwise 'input-altered'; "
+        "facet 'repetition': on EVERY object of every cell, after all other evaluations, the gradient is evaluated again at the last "
+        "interior catalogue point a three times in a row, then at the first interior point b, then at a again (a,a,a,b,a), each result "
+        "judged by the same oracle against the Richardson derivative of the object's logd at that point (points whose first "
+        "evaluation was already wrong are left out: the pass reports dependence on the history of evaluations only); "
         "a cell is non-trivial when at least one gradient vector was returned and compared (not only refusals)")
 BOUND = {
     "quick": "plain families dim 1..3, MRFs 1-D N=2..4 and 2-D 2x2/3x3, composites with parameter dim 3..4 (range dim 4..5, images 3x1 and 2x2; Lognormal-noise model/geometry product at dim 3 only); "
@@ -57,11 +81,17 @@ BOUND = {
              "(2 for the scalar-parameter families and UserDefined/gallery) + up to 5 outside, each in 4 representations "
              "(6 at dim 1; float32 dropped under FD); composites: 14 priors x (18 Likelihood combos + 2 joint+evaluated + 4 user-defined "
              "likelihood combos) Posteriors, 6 priors x 11 member lists x 2 x 2 MultipleLikelihoodPosteriors, 3 x 5 stacked joints; "
-             "boundary points: all 2*dim faces + all corners (dim <= 3) or 4 corner patterns (dim 4), float64 only; 1 of 3 value catalogues",
+             "boundary points: all 2*dim faces + all corners (dim <= 3) or 4 corner patterns (dim 4), float64 only; "
+             "aliasing facet (parameter dim 3..4, FD off/on, interior points + repetition only): 18 Likelihood configurations x "
+             "{fresh, stored} (+ view for the 6 with a flip piece), Gaussian noise; 5 priors (gaussian, gmrf, cauchy, uniform, "
+             "userdefined) x 10 likelihood configurations x {fresh, stored} (+ view for 3) Posteriors; 3 priors x (7 member lists direct "
+             "+ 2 via joint) x {fresh, stored} (+ view for 2 lists) MultipleLikelihoodPosteriors; 3 x 2 stacked joints; repetition a,a,a,b,a "
+             "on every object of every cell; 1 of 3 value catalogues",
     "thorough": "plain families dim 1..6, MRFs 1-D N=2..7 and 2-D 2x2..4x4, composites parameter dim 2..6 (images up to 2x3); "
                 "3 generic points + basis; 3 integer-valued inside points + up to 5 outside in every representation; FD off/on; "
                 "same member alphabet of the composites and boundary points (all faces; all corners up to 3 bounded coordinates, 4 corner "
-                "patterns above) as in the quick tier; "
+                "patterns above) as in the quick tier; aliasing facet at parameter dim 2..6 with all 14 priors for the Posterior and "
+                "Gaussian + Lognormal noise for the Likelihood, otherwise as in the quick tier; repetition a,a,a,b,a on every object; "
                 "1 of 3 value catalogues per run (seed selects)",
 }
 ASSUMPTIONS = [
@@ -92,6 +122,17 @@ ASSUMPTIONS = [
     "condition when a UserDefinedLikelihood is a member (not callable): those variants are construction refusals",
     "user-supplied pieces (model Jacobians, geometry.gradient, PDE gradients, UserDefined gradient_func) are correct "
     "by construction in the harness; only the library's wiring/chain rule around them is under test",
+    "aliasing facet: 'stored' is modelled as a memo keyed by the bytes of the arguments (dtype, shape, content) that keeps and returns "
+    "the same float64 array object; the pristine copy it is compared with afterwards is taken when the array is stored; all pieces of "
+    "an object switch together (no mixed fresh/stored objects); a callable that overwrites ONE output buffer on every call is not "
+    "modelled (a later call legitimately changes an earlier result there); logpdf_func (returns a float), PDE_form and observation "
+    "maps stay as they are; the aliasing variants are evaluated at the interior float64 catalogue points only (representation, "
+    "outside and boundary facets are crossed with 'fresh' pieces in the main cells); signatures of these cells keep the member "
+    "kind and the aliasing variant only (prior / geometry / route are named in the message); 'input-altered' for the evaluation "
+    "point is demanded everywhere: a gradient that equals the derivative 'at that point' presupposes that the call leaves the "
+    "caller's point alone",
+    "repetition facet: the reference derivative of a point is computed once (at its first evaluation) and re-used for the repeated "
+    "evaluations; the sequence is fixed (a,a,a,b,a after the whole programme of the object), longer or other interleavings are not covered",
     "outside the support: any result with at least one non-finite entry, or a refusal, is accepted",
     "representations of the evaluation point: only integer-valued points with entries in a window of 7 consecutive "
     "integers are re-represented (so that all forms denote exactly the same point); a refusal (e.g. TypeError for a list) "
@@ -163,7 +204,6 @@ def _generators(cell):
 
 
 FD_EPS = 1e-8
-_REPEAT = True
 # signature facet of a representation (python scalars exist for one-component variables only: folding them into the
 # class of their type keeps the signature of one defect the same in every dimension; the message names the exact form)
 XREP_CLASS = {"float64": "float64", "pyfloat": "float64", "int64": "int", "pyint": "int", "list": "list", "float32": "float32"}
@@ -325,7 +365,7 @@ def eval_cell(cell):
         # a row at one interior point a, then at another point b, then at a again; every single result is judged by the
         # same oracle (raises, or the derivative of the object's logd at that point).  Points whose first evaluation was
         # already wrong are left out: this pass reports what depends on the history of evaluations only.
-        if case.inside and _REPEAT:
+        if case.inside:
             seq = [case.inside[-1]] * 3
             if len(case.inside) > 1:
                 seq += [case.inside[0], case.inside[-1]]
